@@ -366,9 +366,9 @@ def cmd_scan(args):
     run_stage("stageB.jsonl", stage_b, ms, args.jobs or 2)
 
 
-CORE = ("state/vehicle_state/", "state/simulation_state/", "state/driver_state/", "util/dict_ops.py", "model/station/", "model/base.py",
-        "model/vehicle/", "model/request/", "model/membership.py", "dispatcher/instruction_generator/dispatcher.py",
-        "dispatcher/instruction/instructions.py", "model/roadnetwork/linktraversal.py", "model/roadnetwork/routetraversal.py")
+CORE = ("state/vehicle_state/", "state/simulation_state/simulation_state_ops.py", "util/dict_ops.py", "model/station/", "model/vehicle/vehicle.py",
+        "model/vehicle/mechatronics/bev.py", "model/vehicle/mechatronics/ice.py", "model/request/", "model/roadnetwork/linktraversal.py",
+        "model/roadnetwork/routetraversal.py")
 C01_FILES = ("dispatcher.py", "step_simulation.py", "step_simulation_ops.py", "h3_ops.py", "dict_ops.py", "simulation_state.py",
              "driver_instruction_ops.py", "charging_fleet_manager.py", "instruction_generator_ops.py", "tuple_ops.py")
 
